@@ -6,7 +6,7 @@ CFG = {
     "go_cmd": "c06",
     "lean_dirs": ["C06", "C17"],
     "stages": ["go:gen", "go:impl", "lean:judge"],
-    "theorems": [T + n for n in ["C06_roundtrip", "C06_shape", "C06_errors", "C06_guard_exact", "C06_encode_total"]],
+    "theorems": [T + n for n in ["C06_roundtrip", "C06_shape", "C06_errors", "C06_guard_exact", "C06_encode_total", "C06_decode_rfc", "C06_injective"]],
     "trusted_base": [
         "Lean 4.33.0 kernel; axioms of every theorem printed by #print axioms must be within {propext, Classical.choice, Quot.sound}",
         "model lean/GeomV/C06/Model.lean is tied to /repo/encoding/geojson by the correspondence run on every check: ToGeoJSON's typed slices, "
